@@ -296,7 +296,7 @@ func runConcurrency(rc *RunCtx) *Violation {
 	var defs []*sharedDef
 	np := 1 + simrt.Choose(2)
 	for i := 0; i < np; i++ {
-		w := robustWorlds[simrt.Choose(len(robustWorlds))]
+		w := pickWorld()
 		if i == 0 && simrt.Choose(3) != 0 {
 			w = worldHeredoc // the one definition with a cache written during lexing
 		}
@@ -403,7 +403,27 @@ func runConcurrency(rc *RunCtx) *Violation {
 		}
 		return op
 	}
+	var execInner func(op *concOp, reference bool) string
+	// every execution runs under a generous logical step cap so that a pathological parse cannot
+	// stall the batch; outside a task the call gets an inline pseudo-task of its own
 	exec := func(op *concOp, reference bool) string {
+		const opCap = 30000000
+		if simrt.TaskID() >= 0 {
+			base := simrt.Depth()
+			simrt.OpBegin(opCap)
+			out := execInner(op, reference)
+			simrt.OpEnd(base)
+			return out
+		}
+		var out string
+		simrt.RunInline(func() {
+			simrt.OpBegin(opCap)
+			out = execInner(op, reference)
+			simrt.OpEnd(0)
+		})
+		return out
+	}
+	execInner = func(op *concOp, reference bool) string {
 		switch {
 		case strings.HasPrefix(op.kind, "ebnf."):
 			return execEbnfOp(op, reference)
